@@ -32,6 +32,24 @@ def merge_piece_without_new_points(rec):
     return nofresh and bool(rec.get("pieces_without_new_points", True))
 
 
+def merge_many_piece_without_new_points(rec):
+    """F-C08c (= F-C06a seen through C08's conservation law): merge() of several pieces in one call where every point of some
+    later piece already exists in the pieces before it; exactly that piece's cells are missing.  Only this input class: the
+    recorded pieces are re-examined for a later piece without new points, and the harness has established that nothing but the
+    cells of such pieces is missing."""
+    what = rec.get("what", "")
+    if rec.get("property") != "C08" or not what.startswith("F-C06a (seen through C08) "):
+        return False
+    pieces = (rec.get("case") or {}).get("pieces") or []
+    seen, nofresh = set(), []
+    for i, pc in enumerate(pieces):
+        own = {tuple(map(str, pt)) for pt in pc.get("pts", [])}
+        if i > 0 and own <= seen:
+            nofresh.append(i)
+        seen |= own
+    return bool(nofresh) and rec.get("pieces_without_new_points") == nofresh
+
+
 def _cols(rec):
     return ((rec.get("case") or {}).get("cols")) or []
 
